@@ -31,9 +31,9 @@ let run_faults (parts : string list) : string =
   | None -> "MODEL-STUCK"
   | Some o ->
     let cls = (match o.o_class with RReply -> "REPLY" | RErr -> "ERR") in
-    let dials = if tr = "doh" then "-" else string_of_int (int_of_nat o.o_dials) in
+    let dials = if tr = "doh" || tr = "doq" then "-" else string_of_int (int_of_nat o.o_dials) in
     let spec =
-      if must_succeed udp pool dial && o.o_class <> RReply then "FAIL:c14-healthy-server-not-reached"
+      if must_succeed tk udp pool dial && o.o_class <> RReply then "FAIL:c14-healthy-server-not-reached"
       else if int_of_nat o.o_attempts > int_of_nat (retry_limit tk) + 1 then "FAIL:c14-retry-bound"
       else "ok" in
     Printf.sprintf "res=%s dials=%s att=%d when=%s late=0 || spec=%s" cls dials (int_of_nat o.o_attempts)
